@@ -104,6 +104,15 @@ func checkFrame(r *vk.Run, fc frameCase) {
 	if !bytes.Equal(f.Raw, raw) {
 		fail("mutates-input", "Pack modified Frame.Raw")
 	}
+	// the receiver of the packets may hold them (IRtmp2MpegtsRemuxerObserver.OnTsPackets): packing the
+	// next frame must not change them
+	held := append([]byte{}, out...)
+	f2 := mpegts.Frame{Pts: fc.Pts + 3600, Dts: fc.Dts + 3600, Cc: fc.Cc ^ 5, Pid: fc.Pid ^ 1, Sid: fc.Sid, Key: !fc.Key, Raw: payload(fc.Len, byte(fc.Cc)^0x5a)}
+	f2.Pack()
+	if !bytes.Equal(out, held) {
+		fail("held-output-changed", "the packets returned for this frame changed when the next frame was packed")
+		out = held
+	}
 	pkts, err := ref.ParseTs(out)
 	if err != nil {
 		fail("malformed-ts", "%v", err)
